@@ -733,11 +733,18 @@ Fixpoint each {A} (f : store -> A -> res store) (s : store) (l : list A) : res s
   | x :: r => dor s1 <- f s x; each f s1 r
   end.
 
+(** the modelled language of evolution: a field is added to a ComplexModel
+    subclass (not to ComplexModel, Array or Iterable themselves), its type is
+    not an unfinished Array, and it is not the class itself or one of its own
+    variants (a recursive type built without SelfReference: customizing it on
+    behalf of a variant would register a new variant while the registry is
+    being iterated) *)
 Definition evolvable (s : store) (c t : cid) : bool :=
   match lookup s c, lookup s t with
   | Some r, Some rt =>
     match c_kind r with KComplex => negb (c =? CID_COMPLEXMODEL) | _ => false end
     && match c_kind rt, c_fields rt with KArray, [_] => true | KArray, _ => false | _, _ => true end
+    && negb (orig_or_self rt t =? orig_or_self r c)
   | _, _ => false
   end.
 
